@@ -35,6 +35,9 @@ func (a *IncrementalAlterConfigsResponse) decode(pd packetDecoder, version int16
 	if err != nil {
 		return err
 	}
+	if responseCount < 0 {
+		return errInvalidArrayLength
+	}
 
 	a.Resources = make([]*AlterConfigsResourceResponse, responseCount)
 
